@@ -153,6 +153,8 @@ def eval_items(items):
         for sc, ec in B.CONFIGS:
             for metric in TH.METRICS:
                 base = {"pos": pos, "neg": neg, "ep": ep, "en": en, "sc": sc, "ec": ec, "metric": metric}
+                if (pos and isinstance(pos[0], int)) or (neg and isinstance(neg[0], int)):
+                    base["int"] = True
                 n_rel, n_all, lo_c, hi_c = TH.pop_info(base)
                 if n_rel == 0:
                     continue
@@ -195,6 +197,9 @@ def bounded(chk):
                 continue
             for ep, en in easy:
                 items.append(([v + sh for v in pos0], [v + sh for v in neg0], ep, en))
+            if len(pos0) + len(neg0) <= 3:
+                # integer-dtype scores: lower / higher must still be sample scores or float sentinels one ulp outside the range
+                items.append(([int(3 * v + sh) for v in pos0], [int(3 * v + sh) for v in neg0], 0, 0))
     run_bounded(chk, items, eval_items)
     chk.samples.append({"bounded-case": {"pos": [1.0, 2.0], "neg": [2.0, 3.0], "easy": [1, 2], "config": ["neg", "pos"], "metric": "tonr", "r": 0.375, "clauses": ["bracket", "methods", "monotone"]}})
     # aliases at run time
